@@ -482,6 +482,10 @@ def unencodable_targets(m, p=None):
                 targets += [(smp, "finetune", 1000), (smp, "relative_note", -1000), (smp, "volume", -5)] * 2
                 break
         targets += [(m.volume_envelope, "sustain_point", 70000), (m.panning_envelope, "loop_end_point", 70000)] * 2
+    if isinstance(m, MetaModule) and m.project is not None:
+        inner = [x for x in m.project.modules if x is not None]
+        for x in inner[:4]:
+            targets += [(x, "x", 2 ** 40), (x, "scale", -1), (m.project, "initial_bpm", -1)]
     return targets
 
 
@@ -859,6 +863,9 @@ class Session:
                 # a plain attribute takes a value that is accepted on assignment but does not fit its binary
                 # slot; the save of the top-level container is refused; the caller puts the old value back
                 top = self.root if self.root is not None else p
+                mms = [x for x in ms if isinstance(x, MetaModule)]
+                if mms and (v >> 2) & 1:
+                    m = mms[(v >> 20) % len(mms)]  # prefer a value deep inside: in a module of an embedded project
                 targets = unencodable_targets(m, p)
                 obj, attr, val = targets[(v >> 4) % len(targets)]
                 if not hasattr(obj, attr):
